@@ -44,9 +44,128 @@ const OPS: &[u8] = &[
     0x92, 0x93, 0x9a, 0x9b, 0x9c, 0x9d, 0xa6, 0xa8, 0xa9, 0xaa, 0xac, 0xad, 0xae, 0xaf, 0xb1, 0xb2, 0xba, 0xff, 0x01, 0x14, 0x20, 0x21, 0x41, 0x4b,
 ];
 
-pub const N_SCRIPT_STRESS: u64 = 40;
+pub const N_SCRIPT_STRESS: u64 = 40 + (N_DEEP_SHAPES * DEEP_DEPTHS.len()) as u64;
+
+// ---- deep nesting through EVERY child position of every fragment with children ----
+// A shape is (label, prefix, core, suffix): the script is prefix^n core suffix^n, type-correct
+// at every level, so that the depth guard is the only thing between the input and recursive code.
+pub const N_DEEP_SHAPES: usize = 22;
+/// depths tried for every shape; the last slot is 3*10^5 for tapscript in the thorough tier
+/// (no script size limit there), 5 000 otherwise
+pub const DEEP_DEPTHS: [usize; 6] = [201, 402, 403, 1_000, 10_000, 0];
+
+pub fn deep_shape(w: &RWorld, ctx: usize, shape: usize) -> (&'static str, Vec<u8>, Vec<u8>, Vec<u8>) {
+    let tap = ctx == 3;
+    let key = w.w.key_bytes(0, tap);
+    let mut pk = vec![key.len() as u8];
+    pk.extend_from_slice(&key);
+    pk.push(0xac); // c:pk_k(K): B d u n
+    let cat = |parts: &[&[u8]]| -> Vec<u8> { parts.concat() };
+    match shape {
+        // andor(X,Y,Z) = [X] NOTIF [Z] ELSE [Y] ENDIF
+        0 => ("deep-andor-a", vec![], vec![0x00], vec![0x64, 0x00, 0x67, 0x51, 0x68]),
+        1 => ("deep-andor-b", vec![0x00, 0x64, 0x00, 0x67], vec![0x51], vec![0x68]),
+        2 => ("deep-andor-c", vec![0x00, 0x64], vec![0x51], vec![0x67, 0x00, 0x68]),
+        3 => ("deep-andor-c-pk", cat(&[&pk, &[0x64]]), pk.clone(), cat(&[&[0x67], &pk, &[0x68]])),
+        // and_v(X,Y) = [X] [Y] (the decoder chooses the association)
+        4 => ("deep-and_v", vec![0x51, 0x69], vec![0x51], vec![]),
+        // and_b(X,Y) = [X] [Y] BOOLAND, Y = a:B = TOALT B FROMALT
+        5 => ("deep-and_b-left", vec![], vec![0x51], vec![0x6b, 0x51, 0x6c, 0x9a]),
+        6 => ("deep-and_b-right", vec![0x51, 0x6b], vec![0x51], vec![0x6c, 0x9a]),
+        // or_b(X,Z) = [X] [Z] BOOLOR
+        7 => ("deep-or_b-left", vec![], vec![0x00], vec![0x6b, 0x00, 0x6c, 0x9b]),
+        8 => ("deep-or_b-right", vec![0x00, 0x6b], vec![0x00], vec![0x6c, 0x9b]),
+        // or_c(X,Z) = [X] NOTIF [Z] ENDIF (V); made B by and_v(.., 1) at every level
+        9 => ("deep-or_c-right", vec![0x00, 0x64], vec![0x51, 0x69], vec![0x68]),
+        // or_d(X,Z) = [X] IFDUP NOTIF [Z] ENDIF
+        10 => ("deep-or_d-left", vec![], vec![0x00], vec![0x73, 0x64, 0x00, 0x68]),
+        11 => ("deep-or_d-right", vec![0x00, 0x73, 0x64], vec![0x51], vec![0x68]),
+        // or_i(X,Z) = IF [X] ELSE [Z] ENDIF
+        12 => ("deep-or_i-left", vec![0x63], vec![0x51], vec![0x67, 0x00, 0x68]),
+        13 => ("deep-or_i-right", vec![0x63, 0x00, 0x67], vec![0x51], vec![0x68]),
+        // thresh(1, X1, a:X2, a:X3) = [X1] TOALT [X2] FROMALT ADD TOALT [X3] FROMALT ADD 1 EQUAL
+        14 => ("deep-thresh-first", vec![], vec![0x00], vec![0x6b, 0x00, 0x6c, 0x93, 0x51, 0x87]),
+        15 => ("deep-thresh-middle", vec![0x00, 0x6b], vec![0x00], vec![0x6c, 0x93, 0x6b, 0x00, 0x6c, 0x93, 0x51, 0x87]),
+        16 => ("deep-thresh-last", vec![0x00, 0x6b, 0x00, 0x6c, 0x93, 0x6b], vec![0x00], vec![0x6c, 0x93, 0x51, 0x87]),
+        // wrappers that nest on themselves: n: = X 0NOTEQUAL, j: = SIZE 0NOTEQUAL IF X ENDIF,
+        // d:v: does not type, l: / u: are or_i, t: is and_v
+        17 => ("deep-wrap-n", vec![], vec![0x51], vec![0x92]),
+        18 => ("deep-wrap-j", vec![0x82, 0x92, 0x63], pk.clone(), vec![0x68]),
+        // a: / s: / c: / v: cannot wrap themselves; they alternate with a binary fragment:
+        19 => ("deep-wrap-s-and_b", cat(&[&pk, &[0x7c]]), pk.clone(), vec![0x9a]), // and_b(pk, s:and_b(pk, s:..))
+        20 => ("deep-wrap-v-and_v", vec![], vec![0x51], vec![0x69, 0x51]),           // and_v(v:X, 1)
+        _ => ("deep-wrap-c-or_i", vec![0x63], cat(&[&[key.len() as u8], &key[..]]), cat(&[&[0x67], &[key.len() as u8], &key[..], &[0x68]])), // c:or_i(K-chain) : keys under or_i, CHECKSIG appended by the caller
+    }
+}
+
+pub fn deep_script(w: &RWorld, ctx: usize, shape: usize, depth: usize) -> (Vec<u8>, &'static str) {
+    let (label, pre, core, suf) = deep_shape(w, ctx, shape);
+    let mut s = Vec::with_capacity(depth * (pre.len() + suf.len()) + core.len() + 1);
+    for _ in 0..depth {
+        s.extend_from_slice(&pre);
+    }
+    s.extend_from_slice(&core);
+    for _ in 0..depth {
+        s.extend_from_slice(&suf);
+    }
+    if shape == 21 {
+        s.push(0xac);
+    }
+    (s, label)
+}
+
+pub fn deep_depth(ctx: usize, slot: usize) -> usize {
+    let d = DEEP_DEPTHS[slot % DEEP_DEPTHS.len()];
+    if d != 0 {
+        d
+    } else if ctx == 3 && std::env::var("VERIF_TIER").map(|t| t == "thorough").unwrap_or(false) {
+        300_000
+    } else {
+        5_000
+    }
+}
+
+/// nesting depth of IF / NOTIF in a script, by the harness's own scan of the bytes (pushes
+/// skipped): a lower bound of the depth of any miniscript the script decodes to
+pub fn if_depth(b: &[u8]) -> usize {
+    let (mut i, mut cur, mut max) = (0usize, 0usize, 0usize);
+    while i < b.len() {
+        let c = b[i];
+        i += 1;
+        match c {
+            1..=75 => i += c as usize,
+            76 => {
+                if i < b.len() {
+                    i += 1 + b[i] as usize
+                } else {
+                    break;
+                }
+            }
+            77 => {
+                if i + 1 < b.len() {
+                    i += 2 + (b[i] as usize | (b[i + 1] as usize) << 8)
+                } else {
+                    break;
+                }
+            }
+            78 => break,
+            0x63 | 0x64 => {
+                cur += 1;
+                max = max.max(cur);
+            }
+            0x68 => cur = cur.saturating_sub(1),
+            _ => {}
+        }
+    }
+    max
+}
 
 fn stress_script(w: &RWorld, ctx: usize, k: u64) -> (Vec<u8>, &'static str) {
+    if k >= 40 {
+        let j = (k - 40) as usize;
+        let (shape, slot) = (j / DEEP_DEPTHS.len(), j % DEEP_DEPTHS.len());
+        return deep_script(w, ctx, shape, deep_depth(ctx, slot));
+    }
     let tap = ctx == 3;
     let key = w.w.key_bytes(0, tap);
     let mut pk = vec![key.len() as u8];
